@@ -6,10 +6,10 @@ Over the type-name tables regenerated from `src/backend/{mysql,postgres}/table.r
 (`SeaQ.Gen.ColTypes`), for every `ColumnType` variant and every value of its numeric parameters:
 
 * `*_types_defined_partial`: the written name is a type the dialect defines, in a form it defines
-  (plain, or with as many parameters as the type takes).  Two arms are excluded, each with its
-  witness: MySQL writes the word `unsupported` for `Interval` (`mysql_interval_not_a_type`), and
-  Postgres writes `money(p, s)` although `money` takes no modifier
-  (`postgres_money_modifier_not_defined`) — recorded findings.
+  (plain, or with as many parameters as the type takes).  One arm is excluded, with its witness:
+  MySQL writes the word `unsupported` for `Interval` (`mysql_interval_not_a_type`; MySQL has no
+  interval type, so there is nothing to map it to).  (Postgres used to write `money(p, s)` although
+  `money` takes no modifier; that is repaired and `postgres_types_defined` has no exclusion.)
 * `params_in_text`: every parameter of a template appears in the written name as its decimal
   digits — lengths, precisions and scales are preserved wherever the template mentions them —
   and `parameterised_forms`: the variants that carry a length / precision have a template that
@@ -66,11 +66,7 @@ def armOK (defined : List (String × Nat)) (excluded : List String) (arm : Arm) 
 theorem mysql_types_defined_partial : mysql.all (armOK mysqlDefined ["Interval"]) = true := by decide
 theorem mysql_interval_not_a_type : (mysql.filter (·.variants.contains "Interval")).all (armOK mysqlDefined []) = false := by decide
 
-/-- `Money` is checked separately: the plain form is defined, the parameterised one is not -/
-theorem postgres_types_defined_partial : postgres.all (armOK postgresDefined ["Money"]) = true := by decide
-theorem postgres_money_modifier_not_defined :
-    (postgres.filter (·.variants.contains "Money")).all (armOK postgresDefined []) = false ∧
-    (postgres.filter (·.variants.contains "Money")).all (fun arm => arm.templates.any (fun t => baseName t == "money" && parNames t == [])) = true := by decide
+theorem postgres_types_defined : postgres.all (armOK postgresDefined []) = true := by decide
 
 /-! ## parameters -/
 
